@@ -86,6 +86,16 @@ Theorem C16_rolling_diff :
 Proof. exact rolling_diff_spec. Qed.
 Print Assumptions C16_rolling_diff.
 
+(* zero and negative periods (pandas.Series.diff(-k), k >= 0; the code negates them on the way to this helper):
+   x[i] - x[i + k] while i + k is inside the series, NaN for the last k entries - for every series and k *)
+Theorem C16_rolling_diff_backward :
+  forall (O : NumOps) k (x : list (F O)) i d,
+    (i < List.length x)%nat ->
+    nth i (gen_rolling_diff_backward O k x) None
+    = if (i + k <? List.length x)%nat then Some (fsub O (nth i x d) (nth (i + k) x d)) else None.
+Proof. exact rolling_diff_backward_spec. Qed.
+Print Assumptions C16_rolling_diff_backward.
+
 Theorem C16_rolling_reduction :
   forall (O : NumOps) (func : list (F O) -> F O) window (x : list (F O)) i,
     (1 <= window)%nat -> (i < List.length x)%nat ->
